@@ -236,4 +236,13 @@ def c13_4(c: Ctx) -> None:
         c.ok(where(cu), 'cleanup never evicts started/pending events, so the ancestor lookup cannot lose an in-flight parent')
 
 
+
+@ob('C13.5', 'DOM', 'an event evicted from every history can still be awaited from inside a handler: the in-handler branch of `await event` does not depend on history membership '
+    '(same obligation as C04.7: the blocking wait is never reached while holding the lock)')
+def c13_5(c: Ctx) -> None:
+    from .c04 import check_blocking_wait_unreachable_with_lock
+
+    check_blocking_wait_unreachable_with_lock(c)
+
+
 OBLIGATIONS = ob.obs
